@@ -1,4 +1,6 @@
 import Jp.Lemmas.Valid
+import Jp.Props.C03
+import Jp.Props.C16
 /-
   Jp.Lemmas.Bridge — the text-level walks of the model (`resolveLoop`, `resolveMutLoop`, `expand`,
   `assignValue`, all driven by `split_front` / `split_back` on the pointer *text*) restated as
@@ -33,27 +35,189 @@ def resolveT : List Bytes → Val → Nat → Nat → Loc → Res ResolveErr (Lo
       | none => .err (.notFound position offset)
     | .scalar _ => .err (.unreachable position offset)
 
+theorem resolveLoop_none {ptr : Bytes} (h : splitFront ptr = none) (value : Val)
+    (offset position : Nat) (loc : Loc) :
+    resolveLoop ptr value offset position loc = .ok (loc, value) := by
+  rw [resolveLoop]
+  split
+  · rfl
+  · rename_i h'; rw [h] at h'; cases h'
+
+theorem resolveLoop_some {ptr token rem : Bytes} (h : splitFront ptr = some (token, rem)) (value : Val)
+    (offset position : Nat) (loc : Loc) :
+    resolveLoop ptr value offset position loc =
+    match value with
+    | .arr v =>
+      match Token.toIndex token with
+      | .err source => .err (.failedToParseIndex position offset source)
+      | .panic m => .panic m
+      | .ok index =>
+        match index.forLen v.length with
+        | .err source => .err (.outOfBounds position offset source)
+        | .panic m => .panic m
+        | .ok idx =>
+          match v[idx]? with
+          | some c => resolveLoop rem c (offset + (1 + token.length)) (position + 1) (loc ++ [.idx idx])
+          | none => .panic "index out of bounds: v[idx]"
+    | .obj v =>
+      match lookup (Token.decoded token).bytes v with
+      | some c =>
+        resolveLoop rem c (offset + (1 + token.length)) (position + 1)
+          (loc ++ [.key (Token.decoded token).bytes])
+      | none => .err (.notFound position offset)
+    | .scalar _ => .err (.unreachable position offset) := by
+  rw [resolveLoop]
+  split
+  · rename_i h'; rw [h] at h'; cases h'
+  · rename_i t r h'
+    rw [h] at h'
+    cases h'
+    rfl
+
+theorem resolveMutLoop_none {ptr : Bytes} (h : splitFront ptr = none) (value : Val)
+    (offset position : Nat) (loc : Loc) :
+    resolveMutLoop ptr value offset position loc = .ok (loc, value) := by
+  rw [resolveMutLoop]
+  split
+  · rfl
+  · rename_i h'; rw [h] at h'; cases h'
+
+theorem resolveMutLoop_some {ptr token rem : Bytes} (h : splitFront ptr = some (token, rem))
+    (value : Val) (offset position : Nat) (loc : Loc) :
+    resolveMutLoop ptr value offset position loc =
+    match value with
+    | .arr array =>
+      match parseIndex token array.length position offset with
+      | .err e => .err e
+      | .panic m => .panic m
+      | .ok idx =>
+        match array[idx]? with
+        | some c => resolveMutLoop rem c (offset + (1 + token.length)) (position + 1) (loc ++ [.idx idx])
+        | none => .panic "index out of bounds: array[idx]"
+    | .obj v =>
+      match lookup (Token.decoded token).bytes v with
+      | some c =>
+        resolveMutLoop rem c (offset + (1 + token.length)) (position + 1)
+          (loc ++ [.key (Token.decoded token).bytes])
+      | none => .err (.notFound position offset)
+    | .scalar _ => .err (.unreachable position offset) := by
+  rw [resolveMutLoop]
+  split
+  · rename_i h'; rw [h] at h'; cases h'
+  · rename_i t r h'
+    rw [h] at h'
+    cases h'
+    rfl
 theorem resolveLoop_ofToks (ts : List Bytes) (hns : ∀ t ∈ ts, noSlash t) (v : Val)
     (offset position : Nat) (loc : Loc) :
     resolveLoop (ofToks ts) v offset position loc = resolveT ts v offset position loc := by
-  sorry
+  induction ts generalizing v offset position loc with
+  | nil => rw [ofToks_nil, resolveLoop_none splitFront_nil]; rfl
+  | cons t ts ih =>
+    have ht : noSlash t := hns t (by simp)
+    have ih' := ih (fun u hu => hns u (by simp [hu]))
+    rw [resolveLoop_some (splitFront_ofToks_cons t ts ht)]
+    simp only [resolveT, ih']
+
+theorem resolveMutLoop_eq_resolveLoop_aux (p : Bytes) (v : Val) (offset position : Nat) (loc : Loc) :
+    resolveMutLoop p v offset position loc = resolveLoop p v offset position loc := by
+  generalize hn : p.length = n
+  induction n using Nat.strongRecOn generalizing p v offset position loc with
+  | ind n ih =>
+    cases h : splitFront p with
+    | none => rw [resolveLoop_none h, resolveMutLoop_none h]
+    | some tr =>
+      obtain ⟨tok, rem⟩ := tr
+      have hlt := splitFront_length h
+      have ih' := fun v o q l => ih rem.length (by omega) rem v o q l rfl
+      rw [resolveLoop_some h, resolveMutLoop_some h]
+      cases v with
+      | scalar s => rfl
+      | obj kvs => simp only [ih']
+      | arr xs =>
+        simp only [parseIndex, ih']
+        cases Token.toIndex tok with
+        | err e => rfl
+        | panic m => rfl
+        | ok i =>
+          simp only []
+          cases hf : i.forLen xs.length with
+          | err e => rfl
+          | panic m => rfl
+          | ok idx =>
+            simp only []
+            have hlt' : idx < xs.length := by
+              cases i with
+              | next => simp [Index.forLen] at hf
+              | num k =>
+                simp only [Index.forLen] at hf
+                split at hf
+                · cases hf; assumption
+                · cases hf
+            rw [List.getElem?_eq_getElem hlt']
+
+theorem expand_none {r : Bytes} (h : splitBack r = none) (v : Val) : expand r v = v := by
+  rw [expand]
+  split
+  · rfl
+  · rename_i h'; rw [h] at h'; cases h'
+
+theorem expand_some {r ptr tok : Bytes} (h : splitBack r = some (ptr, tok)) (v : Val) :
+    expand r v = if tok = [48] ∨ tok = [45] then expand ptr (.arr [v])
+      else expand ptr (.obj [(Token.toString tok, v)]) := by
+  rw [expand]
+  split
+  · rename_i h'; rw [h] at h'; cases h'
+  · rename_i p t h'
+    rw [h] at h'
+    cases h'
+    rfl
+
+theorem expandSpec_snoc (ts : List Bytes) (t : Bytes) (v : Val) :
+    expandSpec (ts ++ [t]) v =
+      expandSpec ts (if t = [48] ∨ t = [45] then .arr [v] else .obj [(dec t, v)]) := by
+  induction ts with
+  | nil => simp only [List.nil_append, expandSpec]
+  | cons u us ih => simp only [List.cons_append, expandSpec, ih]
+
+theorem expand_ofToks_aux (n : Nat) : ∀ (ts : List Bytes), ts.length = n → (∀ t ∈ ts, noSlash t) →
+    (∀ t ∈ ts, Token.toString t = dec t) → ∀ v : Val, expand (ofToks ts) v = expandSpec ts v := by
+  induction n with
+  | zero =>
+    intro ts hl _ _ v
+    have : ts = [] := List.length_eq_zero_iff.mp hl
+    subst this
+    rw [ofToks_nil, expand_none splitBack_nil]; rfl
+  | succ n ih =>
+    intro ts hl hns hdec v
+    rcases List.eq_nil_or_concat ts with rfl | ⟨us, t, rfl⟩
+    · simp at hl
+    · rw [List.concat_eq_append] at *
+      have hl' : us.length = n := by simp at hl; omega
+      have ht : noSlash t := hns t (by simp)
+      have hd : Token.toString t = dec t := hdec t (by simp)
+      have ih' := ih us hl' (fun u hu => hns u (by simp [hu])) (fun u hu => hdec u (by simp [hu]))
+      rw [expand_some (splitBack_ofToks_snoc us t ht), expandSpec_snoc, hd]
+      split
+      · exact ih' _
+      · exact ih' _
 
 theorem resolveMutLoop_ofToks (ts : List Bytes) (hns : ∀ t ∈ ts, noSlash t) (v : Val)
     (offset position : Nat) (loc : Loc) :
     resolveMutLoop (ofToks ts) v offset position loc = resolveT ts v offset position loc := by
-  sorry
+  rw [resolveMutLoop_eq_resolveLoop_aux, resolveLoop_ofToks ts hns]
 
 /-- `resolve_mut` reaches the same node as `resolve`, for every pointer text (C09) -/
 theorem resolveMutLoop_eq_resolveLoop (p : Bytes) (v : Val) (offset position : Nat) (loc : Loc) :
-    resolveMutLoop p v offset position loc = resolveLoop p v offset position loc := by
-  sorry
+    resolveMutLoop p v offset position loc = resolveLoop p v offset position loc :=
+  resolveMutLoop_eq_resolveLoop_aux p v offset position loc
 
 /-- the model's `expand` (folding from the back with `split_back`) is the front-to-back `expandSpec`,
     provided the object keys agree: `Token.toString t = dec t` on the tokens involved -/
 theorem expand_ofToks (ts : List Bytes) (hns : ∀ t ∈ ts, noSlash t)
     (hdec : ∀ t ∈ ts, Token.toString t = dec t) (v : Val) :
-    expand (ofToks ts) v = expandSpec ts v := by
-  sorry
+    expand (ofToks ts) v = expandSpec ts v :=
+  expand_ofToks_aux ts.length ts rfl hns hdec v
 
 /-- `assignValue` over a token list, with `expand` on the remaining *text* replaced by `expandSpec`
     on the remaining tokens and the key `Token.toString token` kept as in the model -/
@@ -88,16 +252,101 @@ def assignT : List Bytes → Val → Val → Nat → Nat → Val × Res AssignEr
       | none => (.obj (obj ++ [(key, expandSpec tail value)]), .ok none)
     | .scalar _ => (expandSpec (token :: tail) value, .ok (some dest))
 
+theorem assignValue_none {ptr : Bytes} (h : splitFront ptr = none) (dest value : Val)
+    (offset position : Nat) :
+    assignValue ptr dest value offset position = (value, .ok (some dest)) := by
+  rw [assignValue]
+  split
+  · rfl
+  · rename_i h'; rw [h] at h'; cases h'
+
+theorem assignValue_some {ptr token tail : Bytes} (h : splitFront ptr = some (token, tail))
+    (dest value : Val) (offset position : Nat) :
+    assignValue ptr dest value offset position =
+    match dest with
+    | .arr array =>
+      match Token.toIndex token with
+      | .err source => (dest, .err (.failedToParseIndex position offset source))
+      | .panic m => (dest, .panic m)
+      | .ok index =>
+        match index.forLenIncl array.length with
+        | .err source => (dest, .err (.outOfBounds position offset source))
+        | .panic m => (dest, .panic m)
+        | .ok idx =>
+          match array[idx]? with
+          | some elem =>
+            if isRoot tail then (.arr (array.set idx value), .ok (some elem))
+            else
+              match assignValue tail elem value (offset + (1 + token.length)) (position + 1) with
+              | (elem', r) => (.arr (array.set idx elem'), r)
+          | none =>
+            (.arr (array ++ [expand tail value]), .ok none)
+    | .obj obj =>
+      let key := Token.toString token
+      match lookup key obj with
+      | some entry =>
+        if isRoot tail then (.obj (replaceKey key value obj), .ok (some entry))
+        else
+          match assignValue tail entry value (offset + (1 + token.length)) (position + 1) with
+          | (entry', r) => (.obj (replaceKey key entry' obj), r)
+      | none => (.obj (obj ++ [(key, expand tail value)]), .ok none)
+    | .scalar _ =>
+      (expand ptr value, .ok (some dest)) := by
+  rw [assignValue]
+  split
+  · rename_i h'; rw [h] at h'; cases h'
+  · rename_i t r h'
+    rw [h] at h'
+    cases h'
+    rfl
+
+theorem isRoot_ofToks (ts : List Bytes) : isRoot (ofToks ts) = ts.isEmpty := by
+  cases ts <;> simp [isRoot, ofToks]
 theorem assignValue_ofToks (ts : List Bytes) (hns : ∀ t ∈ ts, noSlash t)
     (hdec : ∀ t ∈ ts, Token.toString t = dec t) (dest value : Val) (offset position : Nat) :
     assignValue (ofToks ts) dest value offset position = assignT ts dest value offset position := by
-  sorry
+  induction ts generalizing dest value offset position with
+  | nil => rw [ofToks_nil, assignValue_none splitFront_nil]; rfl
+  | cons t ts ih =>
+    have ht : noSlash t := hns t (by simp)
+    have hns' : ∀ u ∈ ts, noSlash u := fun u hu => hns u (by simp [hu])
+    have hdec' : ∀ u ∈ ts, Token.toString u = dec u := fun u hu => hdec u (by simp [hu])
+    have ih' := ih hns' hdec'
+    rw [assignValue_some (splitFront_ofToks_cons t ts ht)]
+    simp only [assignT, ih', isRoot_ofToks, expand_ofToks ts hns' hdec',
+      expand_ofToks (t :: ts) hns hdec]
 
 /-- on valid tokens the model's key (`Display`/`decoded`) is the spec's `dec` (restated from C03 so
     that the bridge does not depend on the C03 file) -/
 theorem toString_eq_dec (t : Bytes) (h : validTok t = true) : Token.toString t = dec t := by
-  sorry
+  unfold Token.toString; exact Jp.C03.decoded_eq_dec t h
 
+theorem validNum_shape {t : Bytes} (h : validNum t = true) :
+    t ≠ [] ∧ (∀ b ∈ t, isDigit b = true) ∧ (t = [48] ∨ t.head? ≠ some 48) ∧ parseNat t ≤ usizeMax := by
+  simp only [validNum, Bool.or_eq_true, beq_iff_eq, Bool.and_eq_true,
+      Bool.not_eq_true', List.all_eq_true, bne_iff_ne, decide_eq_true_eq] at h
+  rcases h with rfl | ⟨⟨⟨hne, hd⟩, hz⟩, hm⟩
+  · refine ⟨by simp, by simp [isDigit], Or.inl rfl, by decide⟩
+  · exact ⟨by simpa using hne, hd, Or.inr hz, hm⟩
+
+theorem validNum_ne_dash {t : Bytes} (h : validNum t = true) : t ≠ [45] := by
+  rintro rfl
+  have := (validNum_shape h).2.1 45 (by simp)
+  simp [isDigit] at this
+
+theorem validNum_decimal_parseNat {t : Bytes} (h : validNum t = true) : decimal (parseNat t) = t := by
+  obtain ⟨hne, hd, hz, _⟩ := validNum_shape h
+  rcases hz with rfl | hz
+  · simp [parseNat, Jp.C16.decimal_zero]
+  · exact Jp.C16.decimal_parseNat t hne hd hz
+
+theorem pidx_num {t : Bytes} {n : Nat} (h : pidx t = .num n) : validNum t = true ∧ parseNat t = n := by
+  unfold pidx at h
+  split at h
+  · cases h
+  · split at h
+    · rename_i hv; simp at h; exact ⟨hv, h⟩
+    · cases h
 /-- how the model reads a token as an index coincides with the spec's `pidx` -/
 theorem toIndex_pidx (t : Bytes) :
     (match Token.toIndex t with
@@ -105,21 +354,63 @@ theorem toIndex_pidx (t : Bytes) :
      | .ok (.num n) => pidx t = .num n
      | .err _ => pidx t = .bad
      | .panic _ => False) := by
-  sorry
+  have e : Token.toIndex t = indexSpec t := Jp.C16.fromStr_eq_spec t
+  have hiff := Jp.C16.fromStr_ok_iff t
+  have hnp := Jp.C16.fromStr_no_panic t
+  rw [← Jp.C16.toIndex_eq] at hiff hnp
+  generalize hr : Token.toIndex t = r at *
+  cases r with
+  | ok i =>
+    cases i with
+    | next =>
+      have := Jp.C16.spec_ok_next t e.symm
+      subst this; simp [pidx]
+    | num n =>
+      obtain ⟨hne, hd, hz, hm, rfl⟩ := Jp.C16.spec_ok_num t n e.symm
+      have hv : validIndexStr t = true := hiff.mp ⟨_, rfl⟩
+      have h45 : t ≠ [45] := by
+        rintro rfl
+        have := hd 45 (by simp); simp [isDigit] at this
+      have hv' : validNum t = true := by
+        simpa [validIndexStr, h45] using hv
+      simp [pidx, h45, hv']
+  | err e' =>
+    have hv : ¬ validIndexStr t = true := by
+      intro hv; obtain ⟨i, hi⟩ := hiff.mpr hv; cases hi
+    simp only [validIndexStr, Bool.or_eq_true, beq_iff_eq, not_or] at hv
+    simp [pidx, hv.1, hv.2]
+  | panic m => exact hnp m rfl
 
 /-- canonical indices: two tokens that read as the same number are equal -/
 theorem pidx_num_inj (t u : Bytes) (n : Nat) (ht : pidx t = .num n) (hu : pidx u = .num n) : t = u := by
-  sorry
+  obtain ⟨h1, h2⟩ := pidx_num ht
+  obtain ⟨h3, h4⟩ := pidx_num hu
+  rw [← validNum_decimal_parseNat h1, ← validNum_decimal_parseNat h3, h2, h4]
 
 theorem pidx_decimal (n : Nat) (h : n ≤ usizeMax) : pidx (decimal n) = .num n := by
-  sorry
+  have hv : validNum (decimal n) = true := by
+    rcases Nat.eq_zero_or_pos n with rfl | hn
+    · rw [Jp.C16.decimal_zero]; decide
+    · have h1 := Jp.C16.decimal_ne_nil n
+      have h2 := Jp.C16.decimal_all_digit n
+      have h3 := Jp.C16.decimal_head n hn
+      simp only [validNum, Bool.or_eq_true, beq_iff_eq, Bool.and_eq_true,
+        Bool.not_eq_true', List.all_eq_true, bne_iff_ne, decide_eq_true_eq]
+      right
+      refine ⟨⟨⟨by simpa using h1, h2⟩, h3⟩, by rw [Jp.C16.parseNat_decimal]; exact h⟩
+  have h45 := validNum_ne_dash hv
+  simp [pidx, h45, hv, Jp.C16.parseNat_decimal]
 
 theorem pidx_next_iff (t : Bytes) : pidx t = .next ↔ t = [45] := by
-  sorry
+  unfold pidx
+  split
+  · simp_all
+  · split <;> simp_all
 
 /-- `dec` is injective on valid tokens -/
 theorem dec_inj_valid (t u : Bytes) (ht : validTok t = true) (hu : validTok u = true)
     (h : dec t = dec u) : t = u := by
-  sorry
+  have := congrArg enc h
+  rwa [Jp.C03.enc_dec t ht, Jp.C03.enc_dec u hu] at this
 
 end Jp
